@@ -38,6 +38,7 @@ EXPLANATION = (
     "the kept tail is the right one, plateaus across chunk borders, i.e. equality of results for all signals and partitions.")
 EXPLANATION += (" R-C01-7: no detector attribute holds an alias or view of the caller's chunk (attribute provenance from the effect analysis), and values cached on recorders/detectors are reset by every method that changes what they are computed from (memo rule with a built-in positive example).")
 EXPLANATION += (' R-C01-8: in every detector process() every path to a normal exit passes the _new_turns call (CFG must-pass: no chunk bypasses the tail / head bookkeeping), and no record_* / report_chunk method of a recorder branches on the values it is handed (np.any, truthiness, comparisons) - only on their number.')
+EXPLANATION += (" R-C01-2 (b'): every return of _new_turns that is not dominated by the head-index store is guarded by exactly one test, 'the chunk is empty' (len / size / shape[0] of the chunk or its array conversion compared with 0).")
 ASSUMPTIONS = [
     "np.searchsorted(a, v, side) follows its documented bracket on an ascending array",
     "the compiled rainflow_ext kernels are built from extension.pyx",
@@ -441,6 +442,10 @@ def _r2_new_turns_core(ctx, prog):
                   {"exits": len(exits)})
     else:
         raise AnalysisError("_new_turns: no early exit for an empty chunk found")
+    # (b') every return that is not preceded by the head store leaves because the chunk is EMPTY, nothing else: a chunk that is
+    # left unprocessed for another reason (all samples equal to the last one, no new extreme, ...) still occupies len(chunk)
+    # positions of the signal
+    _early_exits_only_for_empty_chunks(ctx, fi, chunk)
     # (c) tail cut from the array find_turns saw, at the last local turn index
     for v, st in moving:
         tail = st.get("self._sample_tail")
@@ -503,6 +508,75 @@ def _r2_new_turns_core(ctx, prog):
         else:
             ctx.violated(fi, fi.node, "flushed sample gets index %r; the last sample of the chunk is head_index + len(chunk) - 1" % nf,
                          text="flush index %r" % nf)
+
+
+def _early_exits_only_for_empty_chunks(ctx, fi, chunk):
+    fn = fi.node
+    aliases = {chunk}
+    for st in walk_function(fn):
+        if isinstance(st, ast.Assign) and isinstance(st.value, ast.Call) and (call_name(st.value) or "") in ("np.asarray", "np.array", "np.asanyarray") \
+                and st.value.args and isinstance(st.value.args[0], ast.Name) and st.value.args[0].id in aliases:
+            aliases |= {t.id for t in st.targets if isinstance(t, ast.Name)}
+    cfg = CFG(fn)
+    doms = cfg.dominators()
+    head_nodes = {cfg.node(s) for s in _stores(fn, "_head_index")}
+    for r in walk_function(fn):
+        if not isinstance(r, ast.Return):
+            continue
+        n = cfg.node(r)
+        if n is None or doms.get(n) is None:
+            continue
+        if head_nodes & doms[n]:
+            continue
+        guards = []
+        p, child = getattr(r, "_parent", None), r
+        while p is not None and p is not fn:
+            if isinstance(p, ast.If):
+                guards.append((p.test, any(child is x for x in p.body)))
+            elif isinstance(p, (ast.For, ast.While, ast.Try, ast.With)):
+                guards.append((None, True))
+            child, p = p, getattr(p, "_parent", None)
+        ok = len(guards) == 1 and guards[0][0] is not None and _empty_chunk_test(guards[0][0], aliases, guards[0][1])
+        if ok:
+            ctx.holds(fi, r, "early return without head update only for an empty chunk")
+        else:
+            ctx.violated(fi, r, "_new_turns returns without advancing the head index under the condition %s: only an EMPTY chunk may be "
+                         "skipped - any other chunk occupies len(chunk) sample positions, and every index reported afterwards is "
+                         "too small by that length" % (" and ".join(norm_text(g[0]) if g[0] is not None else "<loop/try>" for g in guards)[:160] or "<none>"),
+                         text="early exit without head update")
+
+
+def _empty_chunk_test(t, names, in_body):
+    """`len(chunk) == 0`-like test (true branch), or its negation when the return sits in the else branch"""
+    neg = not in_body
+    while isinstance(t, ast.UnaryOp) and isinstance(t.op, ast.Not):
+        t, neg = t.operand, not neg
+
+    def length_of(e):
+        if isinstance(e, ast.Call) and call_name(e) == "len" and len(e.args) == 1 and isinstance(e.args[0], ast.Name) and e.args[0].id in names:
+            return True
+        if isinstance(e, ast.Attribute) and e.attr == "size" and isinstance(e.value, ast.Name) and e.value.id in names:
+            return True
+        if isinstance(e, ast.Subscript) and isinstance(e.value, ast.Attribute) and e.value.attr == "shape" and const_value(e.slice) == 0 and \
+                isinstance(e.value.value, ast.Name) and e.value.value.id in names:
+            return True
+        return False
+    if length_of(t):                       # `if not len(chunk)`
+        return neg
+    if isinstance(t, ast.Compare) and len(t.ops) == 1:
+        l, op, r = t.left, t.ops[0], t.comparators[0]
+        if length_of(r) and not length_of(l):
+            l, r = r, l
+            op = {ast.Lt: ast.Gt, ast.Gt: ast.Lt, ast.LtE: ast.GtE, ast.GtE: ast.LtE}.get(type(op), type(op))()
+        if length_of(l):
+            c = const_value(r)
+            empty = (isinstance(op, ast.Eq) and c == 0) or (isinstance(op, ast.Lt) and c == 1) or (isinstance(op, ast.LtE) and c == 0)
+            nonempty = (isinstance(op, ast.NotEq) and c == 0) or (isinstance(op, ast.Gt) and c == 0) or (isinstance(op, ast.GtE) and c == 1)
+            if empty:
+                return not neg
+            if nonempty:
+                return neg
+    return False
 
 
 def _is_empty_test(t, chunk):
@@ -804,6 +878,42 @@ FN = "src/pylife/stress/rainflow/fkm_nonlinear.py"
 
 def variants():
     out = []
+
+    def _first_if(f):
+        for i, st in enumerate(f.body):
+            if isinstance(st, ast.If) and st.body and isinstance(st.body[-1], ast.Return):
+                return i, st
+        return None, None
+
+    def standstill_exit(tree):
+        f = find_func(tree, "AbstractDetector._new_turns")
+        i, st = _first_if(f)
+        if st is None:
+            return False
+        p = f.args.args[1].arg
+        f.body.insert(i + 1, parse_stmt("if len(self._sample_tail) > 0 and np.all(np.asarray(%s) == self._sample_tail[-1]):\n    return np.array([]), np.array([])" % p))
+        return True
+    out.append(witness("chunk that repeats the last sample is skipped without head update", GP, standstill_exit, "R-C01-2"))
+
+    def short_exit(tree):
+        f = find_func(tree, "AbstractDetector._new_turns")
+        i, st = _first_if(f)
+        if st is None or not isinstance(st.test, ast.Compare):
+            return False
+        st.test.ops = [ast.LtE()]
+        st.test.comparators = [ast.Constant(1)]
+        return True
+    out.append(witness("one-sample chunks skipped like empty ones", GP, short_exit, "R-C01-2"))
+
+    def empty_by_size(tree):
+        f = find_func(tree, "AbstractDetector._new_turns")
+        i, st = _first_if(f)
+        if st is None:
+            return False
+        p = f.args.args[1].arg
+        st.test = parse_expr("not len(%s)" % p)
+        return True
+    out.append(twin("empty chunk tested by `not len(chunk)`", GP, empty_by_size))
 
     def tail_view_of_chunk(tree):
         f = find_func(tree, "AbstractDetector._new_turns")
